@@ -672,8 +672,18 @@ func (s *BgpServer) prePolicyFilterpath(peer *peer, path, old *table.Path) (*tab
 	}
 
 	// replace-peer-as handling
-	if path != nil && !path.IsWithdraw && conf.AsPathOptions.State.ReplacePeerAs {
-		path = path.ReplaceAS(conf.Config.LocalAs, conf.Config.PeerAs)
+	// The loop check in filterpath() has to see the AS_PATH this peer is (or
+	// was) shown. That also holds for withdrawals - of the path itself and of
+	// the old best that filterpath() may substitute: their stored AS_PATH
+	// still carries the peer's AS, and the withdrawal of a route that had been
+	// advertised with the AS replaced must not be dropped as an AS loop.
+	if conf.AsPathOptions.State.ReplacePeerAs {
+		if path != nil {
+			path = path.ReplaceAS(conf.Config.LocalAs, conf.Config.PeerAs)
+		}
+		if old != nil {
+			old = old.ReplaceAS(conf.Config.LocalAs, conf.Config.PeerAs)
+		}
 	}
 
 	if path = filterpath(peer, path, old); path == nil {
